@@ -214,6 +214,21 @@ def _r3(ck: Checker, prog: Program, f) -> Tuple[Optional[str], Optional[str]]:
             seen["other"] = True
             if l.exit != "raise":
                 if n_ is None and t_ is None and a_ is None:
+                    # the path is taken for a given result object whenever a condition on the data holds (`hvsr is None or <data test>`): the
+                    # object is then left with the masks of an earlier selection
+                    data_only = []
+                    for x in literals(l):
+                        if isinstance(x, sp.Not) and isinstance(x.args[0], sp.And):
+                            x = sp.Or(*[negate(a) for a in x.args[0].args], evaluate=False)
+                        if isinstance(x, sp.Or) and any(same_rel(a, is_none) for a in x.args):
+                            rest = [a for a in x.args if not same_rel(a, is_none)]
+                            if rest and not any(H in a.free_symbols for a in rest):
+                                data_only.append(sp.Or(*rest) if len(rest) > 1 else rest[0])
+                    if data_only and not targets:
+                        ck.violation("C13.R3", fq, "propagation skipped for a given result object",
+                                     f"when {data_only[0]} the function returns without writing the masks of the result object it was given: the object keeps "
+                                     f"the masks of an earlier selection", loc=f.loc(first))
+                        continue
                     raise AnalysisError(f"{fq}: a path of the mask propagation does not test the type of `hvsr` ({l.cond()})")
                 ck.violation("C13.R3", fq, "else branch", "unsupported HVSR types are not refused", loc=f.loc(first))
     for k, need in (("trad", "HvsrTraditional"), ("az", "HvsrAzimuthal")):
